@@ -140,6 +140,16 @@ pub fn record(seed: u64, thorough: bool, shards: usize, prefix: &str) -> Value {
             },
             json!({"k":"eq","st":style_json(&s0),"eff":e,"res":s0 == ee}),
             {
+                // a colourless style against a proper subset / superset of its effects, and against the empty set
+                let all = Style::new().effects(ee);
+                let sub = effects_from_bits((e & (e >> 1)) as u16 & e as u16);
+                json!({"k":"eq","st":style_json(&all),"eff":bits_of(sub),"res":all == sub})
+            },
+            {
+                let all = Style::new().effects(ee);
+                json!({"k":"eq","st":style_json(&all),"eff":0,"res":all == Effects::new()})
+            },
+            {
                 let plain = Style::new().effects(ee);
                 json!({"k":"eq","st":style_json(&plain),"eff":e,"res":plain == ee})
             },
